@@ -194,4 +194,152 @@ example : ∃ (s : St) (e : Entry), TreeInv s ∧ find s ["a"] = some e ∧ e.is
   ⟨run {} [.create ["a"] { isDir := false, tag := 1, chunks := [1], hl := 0, cnt := 0 } false],
    { isDir := false, tag := 1, chunks := [1], hl := 0, cnt := 0 }, tree_inv _ (by simp [OpOk]), by decide, by decide⟩
 
+/-! ### recursive delete removes exactly the subtree -/
+
+theorem deleteOne_ents (s : St) (p : RPath) (e : Entry) : (deleteOne s p e).ents = erase p s.ents := by
+  unfold deleteOne
+  split <;> simp
+
+/-- a recursive delete of any existing path succeeds and removes exactly the subtree rooted there: the entry and
+    every descendant go, everything else stays as it was (whatever the data-deletion flag) -/
+theorem delete_recursive_removes_exactly_subtree (s : St) (inv : TreeInv s) (n : String) (par : RPath) (e : Entry)
+    (dc : Bool) (h : find s (n :: par) = some e) :
+    (deleteEntry s (n :: par) true dc).2.1 = Res.ok ∧
+    ∀ x, x ∈ (deleteEntry s (n :: par) true dc).1.ents ↔ x ∈ s.ents ∧ ¬ (n :: par) <:+ x.1 := by
+  rcases find_stored inv h with ⟨e0, hm, hk⟩
+  unfold deleteEntry
+  simp only [h, Bool.not_true, Bool.false_and, Bool.false_eq_true, if_false]
+  by_cases hd : e.isDir = true
+  · simp only [hd, if_true]
+    have hb : ∀ x ∈ s.ents, (n :: par) <:+ x.1 → x.1.length ≤ (n :: par).length + maxLen s.ents := by
+      intro x hx _
+      have := length_le_maxLen s.ents x hx
+      omega
+    rcases doBatch_exact (maxLen s.ents) s (n :: par) inv hb with ⟨r, hr, _, hx⟩
+    rcases r with ⟨s1, dcs, hs⟩
+    rw [hr]
+    have key : ∀ x, x ∈ erase (n :: par) s1.ents ↔ x ∈ s.ents ∧ ¬ (n :: par) <:+ x.1 := by
+      intro x
+      rw [mem_erase, hx x]
+      constructor
+      · rintro ⟨⟨h1, h2⟩, h3⟩
+        exact ⟨h1, fun hs => h2 ⟨hs, h3⟩⟩
+      · rintro ⟨h1, h2⟩
+        exact ⟨⟨h1, fun hp => h2 hp.1⟩, fun heq => h2 (heq ▸ List.suffix_refl _)⟩
+    cases dc
+    · simp only [Bool.false_eq_true, if_false]
+      exact ⟨trivial, fun x => by rw [deleteOne_ents]; exact key x⟩
+    · simp only [if_true]
+      exact ⟨trivial, fun x => by rw [foldl_deleteHardLink_ents, deleteOne_ents]; exact key x⟩
+  · have hd' : e.isDir = false := by simpa using hd
+    simp only [hd', Bool.false_eq_true, if_false]
+    have key : ∀ x, x ∈ erase (n :: par) s.ents ↔ x ∈ s.ents ∧ ¬ (n :: par) <:+ x.1 := by
+      intro x
+      rw [mem_erase]
+      constructor
+      · rintro ⟨h1, h2⟩
+        refine ⟨h1, ?_⟩
+        intro hs
+        -- a file has nothing below it
+        rcases x with ⟨x1, x2⟩
+        rcases ancestors_of_inv inv x1 x2 h1 (n :: par) (by simp) hs (fun hh => h2 hh.symm) with ⟨dd, hdd, hdir⟩
+        rw [mem_unique inv.nodup hdd hm, hk, hd'] at hdir
+        cases hdir
+      · rintro ⟨h1, h2⟩
+        exact ⟨h1, fun heq => h2 (heq ▸ List.suffix_refl _)⟩
+    cases dc
+    · simp only [Bool.false_eq_true, if_false]
+      exact ⟨trivial, fun x => by rw [deleteOne_ents]; exact key x⟩
+    · simp only [if_true]
+      exact ⟨trivial, fun x => by rw [foldl_deleteHardLink_ents, deleteOne_ents]; exact key x⟩
+
+/-- … which is the abstract `specDelete` of the spec (what the judge compares the implementation's dump with) -/
+theorem delete_recursive_is_specDelete (s : St) (inv : TreeInv s) (n : String) (par : RPath) (e : Entry)
+    (dc : Bool) (h : find s (n :: par) = some e) :
+    ∀ x, x ∈ (deleteEntry s (n :: par) true dc).1.ents ↔ x ∈ specDelete s.ents (n :: par) := by
+  intro x
+  rw [(delete_recursive_removes_exactly_subtree s inv n par e dc h).2 x]
+  simp only [specDelete, under, List.mem_filter, Bool.not_eq_true']
+  constructor
+  · rintro ⟨h1, h2⟩
+    refine ⟨h1, ?_⟩
+    cases hb : (n :: par).isSuffixOf x.1 with
+    | false => rfl
+    | true => exact absurd (List.isSuffixOf_iff_suffix.mp hb) h2
+  · rintro ⟨h1, h2⟩
+    refine ⟨h1, fun hs => ?_⟩
+    rw [List.isSuffixOf_iff_suffix.mpr hs] at h2
+    cases h2
+
+/-! ### rename moves -/
+
+/-- renaming a plain file to a new name whose directory exists moves exactly that entry: it shows under the new name
+    with the same kind, attributes and chunks, is gone from the old one, nothing else changes, nothing is handed to a
+    deletion sink (the model of moveSelfEntry: CreateEntry(new) then DeleteEntryMetaAndData(old) without data) -/
+theorem rename_file_moves (s : St) (inv : TreeInv s) (src : RPath) (n : String) (par : RPath) (a : Entry)
+    (hm : (src, a) ∈ s.ents) (hfile : a.isDir = false) (hplain : a.hl = 0)
+    (habs : find s (n :: par) = none)
+    (hpar : par = [] ∨ ∃ d, find s par = some d ∧ d.isDir = true) :
+    ∃ s', renameEntry s src (n :: par) = (s', .ok, []) ∧ s'.kv = s.kv ∧
+      ∀ x, x ∈ s'.ents ↔ x = (n :: par, { a with hl := 0, cnt := 0 }) ∨ (x ∈ s.ents ∧ x.1 ≠ src) := by
+  generalize ha' : ({ a with hl := 0, cnt := 0 } : Entry) = a'
+  have ha'dir : a'.isDir = false := by rw [← ha']; exact hfile
+  have ha'hl : a'.hl = 0 := by rw [← ha']
+  have hl := lookup_of_mem_nodup inv.nodup hm
+  have hf : find s src = some a := by simp [find, hl, hplain]
+  have hne : src ≠ n :: par := by
+    intro h; rw [h, habs] at hf; cases hf
+  have hens : ensureParent a' par s = (s, true) := by
+    cases par with
+    | nil => rfl
+    | cons m q =>
+      rcases hpar with h | ⟨d, hd, hdir⟩
+      · cases h
+      · unfold ensureParent
+        rw [hd]; simp [hdir]
+  have hcreate : createEntry s (n :: par) a' false = (wInsert s (n :: par) a', .ok, []) := by
+    simp [createEntry, habs, hens]
+  have hmem1 : (src, a) ∈ (wInsert s (n :: par) a').ents := mem_wInsert.mpr (Or.inr ⟨hm, hne⟩)
+  have inv1 : TreeInv (wInsert s (n :: par) a') := by
+    have := inv_createEntry (s := s) (p := n :: par) (e := a') (x := false) inv (by simp [ha'hl])
+    rw [hcreate] at this
+    exact this
+  have hf1 : find (wInsert s (n :: par) a') src = some a := by
+    simp [find, lookup_of_mem_nodup inv1.nodup hmem1, hplain]
+  have hsrc : ∃ m q, src = m :: q := by
+    cases src with
+    | nil => exact absurd rfl (inv.parent _ hm).1
+    | cons m q => exact ⟨m, q, rfl⟩
+  rcases hsrc with ⟨m, q, rfl⟩
+  have hdel : deleteEntry (wInsert s (n :: par) a') (m :: q) false false
+      = (deleteOne (wInsert s (n :: par) a') (m :: q) a, .ok, []) := by
+    simp [deleteEntry, hf1, hfile]
+  refine ⟨deleteOne (wInsert s (n :: par) a') (m :: q) a, ?_, ?_, ?_⟩
+  · unfold renameEntry renameFuel
+    simp only [hf]
+    unfold moveEntry
+    rw [if_neg hne]
+    simp only [ha']
+    simp only [hcreate, hfile, Bool.false_eq_true, if_false, hdel, List.append_nil]
+  · simp [deleteOne, hplain, wInsert, handleUpdateToHardLinks, ha'hl]
+  · intro x
+    simp only [deleteOne, hplain, ne_eq, not_true_eq_false, if_false, mem_erase, mem_wInsert]
+    constructor
+    · rintro ⟨h1 | ⟨h1, _⟩, h2⟩
+      · exact Or.inl h1
+      · exact Or.inr ⟨h1, h2⟩
+    · rintro (h1 | ⟨h1, h2⟩)
+      · subst h1
+        exact ⟨Or.inl rfl, fun h => hne h.symm⟩
+      · refine ⟨Or.inr ⟨h1, ?_⟩, h2⟩
+        intro hx
+        rcases x with ⟨x1, x2⟩
+        simp only at hx
+        subst hx
+        exact find_none inv habs x2 h1
+
+example : ∃ (s : St) (a : Entry), TreeInv s ∧ (["a"], a) ∈ s.ents ∧ a.isDir = false ∧ a.hl = 0 ∧ find s ["b"] = none :=
+  ⟨run {} [.create ["a"] { isDir := false, tag := 1, chunks := [1], hl := 0, cnt := 0 } false],
+   { isDir := false, tag := 1, chunks := [1], hl := 0, cnt := 0 }, tree_inv _ (by simp [OpOk]), by decide, rfl, rfl, by decide⟩
+
 end SwV.Props.C18
